@@ -34,19 +34,23 @@ FieldSet == {"A", "B"}
 Types == {"T1", "T2", "T3"}
 
 \* rule kinds and their names; "took" is `to` with bounds the value satisfies
-NameOf == [px |-> "p_x", pglob |-> "p_glob", to |-> "to", took |-> "to", le |-> "le"]
+\* "req" is `required` on a non-empty value: the built-in reports nothing, but the NAME can be redefined per call like any other
+NameOf == [px |-> "p_x", pglob |-> "p_glob", to |-> "to", took |-> "to", le |-> "le", req |-> "required"]
 \* registered once per process before any call (SetCustomerValidFn): p_glob is new, le shadows a built-in
 GlobalFns == {"p_glob", "le"}
 BuiltIns == {"required", "exist", "either", "botheq", "to", "ge", "le", "oto", "gt", "lt", "eq", "noeq", "in",
              "include", "phone", "email", "idcard", "year", "year2month", "date", "datetime", "int", "ints",
              "float", "re", "ip", "ipv4", "ipv6", "unique", "json", "prefix", "suffix", "file", "dir"}
-AllNames == {"p_x", "p_glob", "to", "le"}
+AllNames == {"p_x", "p_glob", "to", "le", "required"}
 \* every scalar field holds 1: to=5~9 .. to=7~9 are violated, to=1~5 .. satisfied, le=0 .. le=-2 violated
 TextTab == [px    |-> [tag |-> "p_x=1",    typed |-> "p_x=2",    unscoped |-> "p_x=3"],
             pglob |-> [tag |-> "p_glob=1", typed |-> "p_glob=2", unscoped |-> "p_glob=3"],
             to    |-> [tag |-> "to=5~9",   typed |-> "to=6~9",   unscoped |-> "to=7~9"],
             took  |-> [tag |-> "to=1~5",   typed |-> "to=1~6",   unscoped |-> "to=1~7"],
-            le    |-> [tag |-> "le=0",     typed |-> "le=-1",    unscoped |-> "le=-2"]]
+            le    |-> [tag |-> "le=0",     typed |-> "le=-1",    unscoped |-> "le=-2"],
+            req   |-> [tag |-> "required|qt", typed |-> "required|qy", unscoped |-> "required|qu"]]
+\* kinds whose built-in is satisfied by the generated values (every scalar field holds 1)
+SatisfiedBuiltin == {"took", "req"}
 
 --------------------------------------------------------------------------
 (* Layer A *)
@@ -78,7 +82,7 @@ AllowedRules(s, i, f) == {Eff(s, i, f, pick) : pick \in [FieldSet -> BOOLEAN]}
 RuleClauses(s, i, f, src, k) ==
   LET lvl == Resolve(s, NameOf[k]) IN
   IF lvl = "unknown" THEN << [n |-> i, f |-> f, lvl |-> "unknown", rule |-> NameOf[k]] >>
-  ELSE IF lvl = "builtin" /\ k = "took" THEN <<>>
+  ELSE IF lvl = "builtin" /\ k \in SatisfiedBuiltin THEN <<>>
   ELSE << [n |-> i, f |-> f, lvl |-> lvl, rule |-> TextTab[k][src]] >>
 
 ListClauses(s, i, f, sl) == FlattenSeq([r \in 1..Len(sl[2]) |-> RuleClauses(s, i, f, sl[1], sl[2][r])])
@@ -115,7 +119,7 @@ CurList == MechRules(scn, ni, FieldSeq[fi], cus)
 NextRule == /\ pc = "field" /\ fi <= Len(FieldSeq) /\ ri <= Len(CurList[2])
             /\ LET k == CurList[2][ri] lvl == MechResolve(scn, NameOf[k]) f == FieldSeq[fi] IN
                buf' = buf \o (IF lvl = "unknown" THEN << [n |-> ni, f |-> f, lvl |-> "unknown", rule |-> NameOf[k]] >>
-                              ELSE IF lvl = "builtin" /\ k = "took" THEN <<>>
+                              ELSE IF lvl = "builtin" /\ k \in SatisfiedBuiltin THEN <<>>
                               ELSE << [n |-> ni, f |-> f, lvl |-> lvl, rule |-> TextTab[k][CurList[1]]] >>)
             /\ ri' = ri + 1
             /\ UNCHANGED <<scn, pc, ni, fi, cus>>
@@ -167,9 +171,9 @@ TF1 == SetsOver({<<"to">>}, TRUE)
 TF1s == {NoSet, [present |-> TRUE, e |-> [A |-> <<"to">>, B |-> <<>>]], [present |-> TRUE, e |-> [A |-> <<"to">>, B |-> <<"to">>]]}
 UF1 == SetsOver({<<"to">>}, TRUE)
 ResMenu == {<<"px">>, <<"pglob">>, <<"to">>, <<"took">>, <<"le">>, <<"px", "to">>, <<"to", "px">>,
-            <<"pglob", "le">>, <<"took", "px", "le">>}
+            <<"pglob", "le">>, <<"took", "px", "le">>, <<"req">>, <<"req", "px">>, <<"to", "req">>}
 FnSubsets == {<<>>, <<"p_x">>, <<"p_glob">>, <<"to">>, <<"le">>, <<"p_x", "to">>, <<"p_glob", "le">>, <<"to", "le">>,
-              <<"p_x", "p_glob", "to", "le">>}
+              <<"p_x", "p_glob", "to", "le">>, <<"required">>, <<"required", "to">>}
 \* name-resolution window: nested once (inner type = type of node 2), rules over every name, given at each of the
 \* three places (tag of A, typed entry for A of the inner type, unscoped entry for B), every collision of names
 Only(f, l) == [present |-> TRUE, e |-> [g \in FieldSet |-> IF g = f THEN l ELSE <<>>]]
